@@ -8,6 +8,7 @@
 #include <algorithm>
 #include <new>
 #include <cmath>
+#include <initializer_list>
 #include <limits>
 #include "vharness.hpp"
 #include <frg/vector.hpp>
@@ -26,11 +27,12 @@ struct Tracker {
 	std::map<const char *, Blk> blocks;                       // live allocator blocks by base address
 	int next_id = 1;
 	int ninst = 4;                    // a block is named raw * ninst + instance (coq/Seq/SlotModel.v: enc)
+	size_t align = 0;                 // > 16: the element type is over-aligned, the allocator hands out blocks aligned to it
 	struct Inl { const char *base; size_t bytes; int reg; };
 	std::vector<Inl> inl;             // inline storage of the small_vector registers
 	size_t esz = 1, inl_n = 0;
 	std::set<const void *> live;      // objects constructed by the container and not yet destroyed
-	void reset() { on = false; ev.clear(); blocks.clear(); next_id = 1; ninst = 4; inl.clear(); esz = 1; inl_n = 0; live.clear(); }
+	void reset() { on = false; ev.clear(); blocks.clear(); next_id = 1; ninst = 4; align = 0; inl.clear(); esz = 1; inl_n = 0; live.clear(); }
 	bool resolve(const void *p, int &b, size_t &slot) {
 		const char *c = (const char *)p;
 		auto it = blocks.upper_bound(c);
@@ -72,7 +74,11 @@ struct LogAlloc : vh::TrackAlloc {
 	LogAlloc() = default;
 	explicit LogAlloc(int i) : inst(i) { }
 	void *allocate(size_t n) {
-		void *p = vh::TrackAlloc::allocate(n);
+		void *p;
+		if(T.align > 16) {          // over-aligned element type: an allocator for such a T hands out blocks aligned for T
+			p = ::aligned_alloc(T.align, ((n ? n : 1) + T.align - 1) / T.align * T.align);
+			vh::g_alloc.blocks[p] = n; vh::g_alloc.allocs++;
+		} else p = vh::TrackAlloc::allocate(n);
 		int raw = T.next_id++;
 		T.blocks[(const char *)p] = {raw, n, inst};
 		if(T.on) { char buf[48]; snprintf(buf, sizeof buf, "A%d:%zu", raw * T.ninst + inst, n); T.ev.push_back(buf); }
@@ -99,14 +105,17 @@ struct LogAlloc : vh::TrackAlloc {
 
 // ---- element with observable copy/move: registers its lifetime (vh::TV), logs events, and reads its
 // value through a pointer to itself (like an SSO string), so a bytewise relocation is visible
-template<bool Copyable>
-struct Elem {
+inline void check_aligned(const void *p, size_t a, const char *what) {
+	if((uintptr_t)p % a) vh::oracle("alignment", "%s at an address that is not a multiple of alignof(T) = %zu (address mod %zu = %zu)", what, a, a, (size_t)((uintptr_t)p % a));
+}
+template<bool Copyable, size_t Align = alignof(vh::TV)>
+struct alignas(Align) Elem {
 	vh::TV tv;
 	const Elem *self;
-	Elem() : tv(), self(this) { T.born(this); }
-	Elem(uint64_t x) : tv(x), self(this) { T.born(this); }
-	Elem(const Elem &o) requires Copyable : tv(o.tv), self(this) { T.use(&o, "copy"); T.born(this); }
-	Elem(Elem &&o) : tv(std::move(o.tv)), self(this) { T.use(&o, "move"); T.born(this); }
+	Elem() : tv(), self(this) { check_aligned(this, Align, "element constructed"); T.born(this); }
+	Elem(uint64_t x) : tv(x), self(this) { check_aligned(this, Align, "element constructed"); T.born(this); }
+	Elem(const Elem &o) requires Copyable : tv(o.tv), self(this) { check_aligned(this, Align, "element constructed"); T.use(&o, "copy"); T.born(this); }
+	Elem(Elem &&o) : tv(std::move(o.tv)), self(this) { check_aligned(this, Align, "element constructed"); T.use(&o, "move"); T.born(this); }
 	Elem &operator=(const Elem &o) requires Copyable { tv = o.tv; T.use(this, "assign-to"); T.use(&o, "assign-from"); return *this; }
 	Elem &operator=(Elem &&o) { tv = std::move(o.tv); T.use(this, "assign-to"); T.use(&o, "move-assign-from"); return *this; }
 	~Elem() { T.died(this); }
@@ -120,6 +129,8 @@ struct Elem {
 };
 using TVE = Elem<true>;
 using MOE = Elem<false>;
+using A64 = Elem<true, 64>;       // over-aligned (alignof > alignof(max_align_t)), copy/move observable
+static_assert(alignof(A64) == 64 && sizeof(A64) == 64);
 
 // ---- trivially copyable element types whose operator== is not bytewise equality
 // double: code 0 = +0.0, 1 = -0.0, 2 = NaN, 3 = +inf, 4 = -inf, c >= 5 = (double)c
@@ -143,27 +154,48 @@ struct Pod {
 };
 static_assert(std::is_trivially_copyable_v<Pod> && sizeof(Pod) == 8);
 
-template<class X> constexpr bool is_plain = std::is_same_v<X, double> || std::is_same_v<X, Pod>;
+// element type with a (count, fill) constructor AND an initializer_list constructor: T(n, x) and T{n, x} differ.
+// value code = len * 2^32 + (sum of the elements mod 2^32)
+struct Bag {
+	uint32_t len = 0, sum = 0;
+	Bag() = default;
+	Bag(size_t count, uint64_t fill) : len((uint32_t)count), sum((uint32_t)(count * fill)) { }
+	Bag(std::initializer_list<uint64_t> il) : len((uint32_t)il.size()) { for(auto v : il) sum += (uint32_t)v; }
+	static Bag of(uint64_t c) { Bag b; b.len = (uint32_t)(c >> 32); b.sum = (uint32_t)c; return b; }
+	bool operator==(const Bag &) const = default;
+};
+static_assert(sizeof(Bag) == 8);
+
+template<class X> constexpr bool is_plain = std::is_same_v<X, double> || std::is_same_v<X, Pod> || std::is_same_v<X, Bag>;
 template<class X> uint64_t val(const X &x) {
 	if constexpr(std::is_same_v<X, uint64_t>) return x;
 	else if constexpr(std::is_same_v<X, double>) return code_of(x);
 	else if constexpr(std::is_same_v<X, Pod>) return (uint64_t)x.key * 4 + x.tag;
+	else if constexpr(std::is_same_v<X, Bag>) return ((uint64_t)x.len << 32) | x.sum;
 	else return x.get();
 }
 template<class X> X mk(uint64_t c) {
 	if constexpr(std::is_same_v<X, double>) return dbl_of(c);
 	else if constexpr(std::is_same_v<X, Pod>) { Pod p{}; p.tag = (uint8_t)(c % 4); p.key = (uint32_t)(c / 4); return p; }
+	else if constexpr(std::is_same_v<X, Bag>) return Bag::of(c);
 	else return X(c);
 }
 template<class X> constexpr bool copyable = std::is_copy_constructible_v<X>;
 
+// what the std:: containers store for emplace_back(n, x) / resize(k, n, x): direct-initialisation T(n, x)
+template<class X> uint64_t std_emplace_code(uint64_t n, uint64_t x) {
+	std::vector<X> v; v.emplace_back((size_t)n, x); return val(v.back());
+}
+
 // ---- container variables ("registers") in raw storage, so scripts can destroy and re-construct them
 template<class C, int K = 3>
 struct Regs {
-	alignas(C) unsigned char raw[K][sizeof(C)];
+	// K adjacent objects at an address that is aligned for C and for nothing stricter (so that an under-aligned C shows)
+	alignas(256) unsigned char store[K * sizeof(C) + 256];
 	bool alive[K] = {};
-	C &operator[](int i) { return *std::launder(reinterpret_cast<C *>(raw[i])); }
-	void *at(int i) { return raw[i]; }
+	unsigned char *base() { return store + (alignof(C) < 256 ? alignof(C) : 0); }
+	C &operator[](int i) { return *std::launder(reinterpret_cast<C *>(base() + i * sizeof(C))); }
+	void *at(int i) { return base() + i * sizeof(C); }
 	~Regs() { for(int i = 0; i < K; i++) if(alive[i]) (*this)[i].~C(); }
 };
 
@@ -198,7 +230,7 @@ static int R_(const std::string &s) { int r = atoi(s.c_str()); if(r < 0 || r > 2
 template<class E>
 static void run_vec(const vh::Lines &ls) {
 	using C = frg::vector<E, LogAlloc>;
-	T.esz = sizeof(E);
+	T.esz = sizeof(E); T.align = alignof(E);
 	std::vector<uint64_t> ref[3];
 	{
 	Regs<C> R;
@@ -207,7 +239,7 @@ static void run_vec(const vh::Lines &ls) {
 		for(int k = 0; k < 3; k++) {
 			C &c = R[k];
 			std::vector<uint64_t> idx, it;
-			for(size_t i = 0; i < c.size(); i++) idx.push_back(val(c[i]));
+			for(size_t i = 0; i < c.size(); i++) { check_aligned(&c[i], alignof(E), "vector element"); idx.push_back(val(c[i])); }
 			for(auto p = c.begin(); p != c.end(); ++p) it.push_back(val(*p));
 			bool fb = c.size() > 0;
 			uint64_t fr = fb ? val(c.front()) : 0, bk = fb ? val(c.back()) : 0;
@@ -230,6 +262,12 @@ static void run_vec(const vh::Lines &ls) {
 			else if constexpr(is_plain<E>) R[r].emplace_back(mk<E>(x));
 			else R[r].emplace_back(x);
 			ref[r].push_back(x);
+		} else if(o == "emplace2") {      // emplace_back(n, x): constructor arguments are forwarded; std:: stores T(n, x)
+			int r = R_(t[1]); uint64_t n = vh::u64(t[2]), x = vh::u64(t[3]);
+			if constexpr(std::is_same_v<E, Bag>) { R[r].emplace_back((size_t)n, x); ref[r].push_back(std_emplace_code<E>(n, x)); } else throw Stop{"badop"};
+		} else if(o == "resize2") {       // resize(k, n, x): every new element is T(n, x)
+			int r = R_(t[1]); size_t k = vh::u64(t[2]); uint64_t n = vh::u64(t[3]), x = vh::u64(t[4]);
+			if constexpr(std::is_same_v<E, Bag>) { R[r].resize(k, (size_t)n, x); ref[r].resize(k, std_emplace_code<E>(n, x)); } else throw Stop{"badop"};
 		} else if(o == "pop") {
 			int r = R_(t[1]);
 			if(ref[r].empty()) throw Stop{"ub"};
@@ -316,19 +354,21 @@ static void run_vec(const vh::Lines &ls) {
 template<class E, size_t N>
 static void run_sv(const vh::Lines &ls) {
 	using C = frg::small_vector<E, N, LogAlloc>;
-	T.esz = sizeof(E); T.inl_n = N;
+	T.esz = sizeof(E); T.inl_n = N; T.align = alignof(E);
 	std::vector<uint64_t> ref[3];
 	{
 	Regs<C> R;
 	for(int i = 0; i < 3; i++) {
 		new (R.at(i)) C(LogAlloc(i)); R.alive[i] = true;
 		T.inl.push_back({(const char *)&R[i]._array, N * sizeof(E), i});
+		check_aligned(&R[i]._array, alignof(E), "inline storage of a small_vector");
 	}
+	if(alignof(C) < alignof(E)) vh::oracle("alignment", "alignof(small_vector<T, N>) = %zu is smaller than alignof(T) = %zu", alignof(C), alignof(E));
 	auto dump = [&]() {
 		for(int k = 0; k < 3; k++) {
 			C &c = R[k];
 			std::vector<uint64_t> idx, it;
-			for(size_t i = 0; i < c.size(); i++) idx.push_back(val(c[i]));
+			for(size_t i = 0; i < c.size(); i++) { check_aligned(&c[i], alignof(E), "small_vector element"); idx.push_back(val(c[i])); }
 			for(auto p = c.begin(); p != c.end(); ++p) it.push_back(val(*p));
 			bool fb = c.size() > 0;
 			uint64_t fr = fb ? val(c.front()) : 0, bk = fb ? val(c.back()) : 0;
@@ -347,10 +387,17 @@ static void run_sv(const vh::Lines &ls) {
 		T.on = true;
 		if(o == "push" || o == "pushm" || o == "emplace") {
 			int r = R_(t[1]); uint64_t x = vh::u64(t[2]);
-			if(o == "push") { if constexpr(copyable<E>) { E tmp(x); R[r].push_back(tmp); } else throw Stop{"badop"}; }
-			else if(o == "pushm") R[r].push_back(E(x));
+			if(o == "push") { if constexpr(copyable<E>) { E tmp = mk<E>(x); R[r].push_back(tmp); } else throw Stop{"badop"}; }
+			else if(o == "pushm") R[r].push_back(mk<E>(x));
+			else if constexpr(is_plain<E>) R[r].emplace_back(mk<E>(x));
 			else R[r].emplace_back(x);
 			ref[r].push_back(x);
+		} else if(o == "emplace2") {
+			int r = R_(t[1]); uint64_t n = vh::u64(t[2]), x = vh::u64(t[3]);
+			if constexpr(std::is_same_v<E, Bag>) { R[r].emplace_back((size_t)n, x); ref[r].push_back(std_emplace_code<E>(n, x)); } else throw Stop{"badop"};
+		} else if(o == "resize2") {
+			int r = R_(t[1]); size_t k = vh::u64(t[2]); uint64_t n = vh::u64(t[3]), x = vh::u64(t[4]);
+			if constexpr(std::is_same_v<E, Bag>) { R[r].resize(k, (size_t)n, x); ref[r].resize(k, std_emplace_code<E>(n, x)); } else throw Stop{"badop"};
 		} else if(o == "pop") {
 			int r = R_(t[1]);
 			R[r].pop_back();                       // FRG_ASSERT(_size) stops the case when empty
@@ -361,7 +408,7 @@ static void run_sv(const vh::Lines &ls) {
 			R[r].resize(n); ref[r].resize(n);
 		} else if(o == "resizev") {
 			int r = R_(t[1]); size_t n = vh::u64(t[2]); uint64_t x = vh::u64(t[3]);
-			if constexpr(copyable<E>) { E tmp(x); R[r].resize(n, tmp); } else throw Stop{"badop"};
+			if constexpr(copyable<E>) { E tmp = mk<E>(x); R[r].resize(n, tmp); } else throw Stop{"badop"};
 			ref[r].resize(n, x);
 		} else if(o == "front" || o == "back") {
 			int r = R_(t[1]);
@@ -534,11 +581,15 @@ static void run_stack(const vh::Lines &ls) {
 		T.on = true;
 		if(o == "push") {
 			uint64_t x = vh::u64(t[1]);
-			if constexpr(copyable<E>) { E tmp(x); s.push(tmp); } else throw Stop{"badop"};
+			if constexpr(copyable<E>) { E tmp = mk<E>(x); s.push(tmp); } else throw Stop{"badop"};
 			ref.push_back(x);
 		} else if(o == "emplace") {
 			uint64_t x = vh::u64(t[1]);
-			s.emplace(x); ref.push_back(x);
+			if constexpr(is_plain<E>) s.emplace(mk<E>(x)); else s.emplace(x);
+			ref.push_back(x);
+		} else if(o == "emplace2") {      // stack::emplace(n, x) forwards to the container's emplace_back
+			uint64_t n = vh::u64(t[1]), x = vh::u64(t[2]);
+			if constexpr(std::is_same_v<E, Bag>) { s.emplace((size_t)n, x); ref.push_back(std_emplace_code<E>(n, x)); } else throw Stop{"badop"};
 		} else if(o == "pop") {
 			if(ref.empty()) throw Stop{"ub"};
 			s.pop(); ref.pop_back();
@@ -598,7 +649,11 @@ static void run_list(const vh::Lines &ls) {
 		T.on = true;
 		if(o == "emplace") {
 			uint64_t x = vh::u64(t[1]);
-			l.emplace_back(x); ref.push_back(x);
+			if constexpr(is_plain<E>) l.emplace_back(mk<E>(x)); else l.emplace_back(x);
+			ref.push_back(x);
+		} else if(o == "emplace2") {      // list::emplace_back(n, x): construct<item>(allocator, n, x)
+			uint64_t n = vh::u64(t[1]), x = vh::u64(t[2]);
+			if constexpr(std::is_same_v<E, Bag>) { l.emplace_back((size_t)n, x); ref.push_back(std_emplace_code<E>(n, x)); } else throw Stop{"badop"};
 		} else if(o == "pop") {
 			if(ref.empty()) throw Stop{"ub"};
 			l.pop_front(); ref.pop_front();
@@ -737,18 +792,18 @@ static void body(const vh::Lines &ls) {
 	auto t = vh::split(ls[0]);
 	std::string cont = t.size() > 1 ? t[1] : "vec", elem = t.size() > 2 ? t[2] : "int";
 	int n = t.size() > 3 ? atoi(t[3].c_str()) : 4;
-	size_t es = (elem == "int" || elem == "dbl" || elem == "pod") ? sizeof(uint64_t) : sizeof(TVE);
+	size_t es = (elem == "int" || elem == "dbl" || elem == "pod" || elem == "bag") ? sizeof(uint64_t) : elem == "a64" ? sizeof(A64) : sizeof(TVE);
 	if(cont == "list") es += sizeof(frg::default_list_hook<int>);
 	printf("hdr %s %s esz=%zu\n", cont.c_str(), elem.c_str(), es);
 	try {
-		if(cont == "vec") { if(elem == "int") run_vec<uint64_t>(ls); else if(elem == "dbl") run_vec<double>(ls); else if(elem == "pod") run_vec<Pod>(ls); else if(elem == "tv") run_vec<TVE>(ls); else run_vec<MOE>(ls); }
+		if(cont == "vec") { if(elem == "int") run_vec<uint64_t>(ls); else if(elem == "dbl") run_vec<double>(ls); else if(elem == "pod") run_vec<Pod>(ls); else if(elem == "bag") run_vec<Bag>(ls); else if(elem == "a64") run_vec<A64>(ls); else if(elem == "tv") run_vec<TVE>(ls); else run_vec<MOE>(ls); }
 		else if(cont == "sv") {
-			if(n == 2) { if(elem == "int") run_sv<uint64_t, 2>(ls); else if(elem == "tv") run_sv<TVE, 2>(ls); else run_sv<MOE, 2>(ls); }
-			else { if(elem == "int") run_sv<uint64_t, 4>(ls); else if(elem == "tv") run_sv<TVE, 4>(ls); else run_sv<MOE, 4>(ls); }
+			if(n == 2) { if(elem == "int") run_sv<uint64_t, 2>(ls); else if(elem == "bag") run_sv<Bag, 2>(ls); else if(elem == "a64") run_sv<A64, 2>(ls); else if(elem == "tv") run_sv<TVE, 2>(ls); else run_sv<MOE, 2>(ls); }
+			else { if(elem == "int") run_sv<uint64_t, 4>(ls); else if(elem == "bag") run_sv<Bag, 4>(ls); else if(elem == "a64") run_sv<A64, 4>(ls); else if(elem == "tv") run_sv<TVE, 4>(ls); else run_sv<MOE, 4>(ls); }
 		}
 		else if(cont == "dyn") { if(elem == "int") run_dyn<uint64_t>(ls); else if(elem == "tv") run_dyn<TVE>(ls); else run_dyn<MOE>(ls); }
-		else if(cont == "stack") { if(elem == "int") run_stack<uint64_t>(ls); else if(elem == "tv") run_stack<TVE>(ls); else run_stack<MOE>(ls); }
-		else if(cont == "list") { if(elem == "int") run_list<uint64_t>(ls); else if(elem == "tv") run_list<TVE>(ls); else run_list<MOE>(ls); }
+		else if(cont == "stack") { if(elem == "int") run_stack<uint64_t>(ls); else if(elem == "bag") run_stack<Bag>(ls); else if(elem == "tv") run_stack<TVE>(ls); else run_stack<MOE>(ls); }
+		else if(cont == "list") { if(elem == "int") run_list<uint64_t>(ls); else if(elem == "bag") run_list<Bag>(ls); else if(elem == "tv") run_list<TVE>(ls); else run_list<MOE>(ls); }
 		else if(cont == "ilist") run_ilist(ls);
 		else printf("badtype\n");
 	} catch(Stop &s) {
